@@ -362,7 +362,7 @@ Proof.
     assert (HR : forall g', (g' = with_rib g (live g) [evk false k None; evk true k None] (g_keys g)
                                    (upd_rib k None (g_rib g)) (g_ssn g) (g_ctr g) \/
                              g' = with_rib g (live g) [evk false k None; evk true k None] (g_keys g)
-                                   (upd_rib k None (g_rib g)) (g_ssn g) (set_ctr (k_peer k) (g_ctr g (k_peer k) - 1) (g_ctr g))) ->
+                                   (upd_rib k None (g_rib g)) (g_ssn g) (set_ctr (k_peer k) (ctr_dec (g_ctr g (k_peer k))) (g_ctr g))) ->
                  effect g t (MRemLocked k) g').
     { intros g' [-> | ->]; cbn [effect]; unfold frame; cbn [with_rib g_ph g_walk g_stale g_ssn g_keys g_rib]; repeat split; auto;
         intros j b q; unfold F; cbn [g_evs with_rib]; rewrite bcast_fold; destruct (live g j); cbn [andb]; auto;
